@@ -143,7 +143,8 @@ TToggle == Ev.ev = "Toggle" /\ mode = "ok" /\ Accept(ToggleTurn(st), "state afte
 TCount ==
   /\ Ev.ev = "Count" /\ mode = "ok"
   /\ \E s \in {Count(st)} :
-     IF Ev.res # Last(s.seenS)
+     IF Ev.panic # "" THEN Broken("registering a position panicked", Ev.panic)
+     ELSE IF Ev.res # Last(s.seenS)
      THEN Reject(s, "reported occurrence count differs from the number of registrations of this position", <<Ev.res, Last(s.seenS)>>, "stable")
      ELSE Accept(s, "state after count_current_position differs", "stable")
 
@@ -151,7 +152,8 @@ TUncount ==
   /\ Ev.ev = "Uncount" /\ mode = "ok"
   /\ IF ~CanUncount(st) THEN OutOfScope("unregistering a position that is not registered")
      ELSE \E s \in {Uncount(st)} :
-          IF Ev.res # CountOf(s, RepKey(s))
+          IF Ev.panic # "" THEN Broken("unregistering a registered position panicked", Ev.panic)
+          ELSE IF Ev.res # CountOf(s, RepKey(s))
           THEN Reject(s, "count after unregistering differs", <<Ev.res, CountOf(s, RepKey(s))>>, "stable")
           ELSE Accept(s, "state after uncount_current_position differs", "stable")
 
@@ -163,15 +165,18 @@ DrawThreshold == 100
 TEnding ==
   /\ Ev.ev = "Ending" /\ mode = "ok"
   /\ \E p \in {Abs(st)} : \E L \in {Legal(p)} :
-     LET rep == Last(st.seenS) >= 3
+     LET rep == Last(st.seenS) = 3
+         \* beyond the third occurrence the game is already over; what is reported then is not judged
+         repMore == Last(st.seenS) > 3
          fifty == Last(st.hmS) >= DrawThreshold
          v == Verdict(p, L)
          info == [res |-> Ev.res, want |-> v, hm |-> Last(st.hmS), seen |-> Last(st.seenS)]
      IN IF ~Consistent(p) THEN OutOfScope("verdict asked on an inconsistent position")
         \* precedence between a draw claim and mate/stalemate on the same ply is not judged
-        ELSE IF L = {} /\ (rep \/ fifty) THEN Accept(st, "game_ending changed the board", "stable")
+        ELSE IF L = {} /\ (rep \/ repMore \/ fifty) THEN Accept(st, "game_ending changed the board", "stable")
         ELSE IF fifty /\ Ev.res # "draw" THEN Reject(st, "draw by move count not reported", info, "stable")
         ELSE IF rep /\ Ev.res # "draw" THEN Reject(st, "draw by repetition not reported", info, "stable")
+        ELSE IF repMore /\ Ev.res \in {"draw", v} THEN Accept(st, "game_ending changed the board", "stable")
         ELSE IF ~(rep \/ fifty) /\ Ev.res = "draw" THEN Reject(st, "draw reported too early", info, "stable")
         ELSE IF ~(rep \/ fifty) /\ Ev.res # v THEN Reject(st, "game ending differs", info, "stable")
         ELSE Accept(st, "game_ending changed the board", "stable")
